@@ -211,6 +211,11 @@ def gen_cases(chk):
         for base in edges:
             for imm in (0, 1, 0x7fffffff, -1, -0x80000000):
                 cases.append(Case(B.lddw(4, base) + B.ldind(sz, 4, imm) + B.EXIT, mem=pk, fam='addr-edge:ldind'))
+    # atomic adds at every alignment, in the stack and in the packet: a misaligned one is an error value, never an abort
+    for sz in ('w', 'dw'):
+        for k in range(16):
+            cases.append(Case(B.mov(2, 3) + B.xadd(sz, 10, 2, -32 + k) + B.mov(0, 0) + B.EXIT, fam='xadd-align:stack'))
+            cases.append(Case(B.mov(2, 3) + B.xadd(sz, 1, 2, k) + B.mov(0, 0) + B.EXIT, mem=pk, fam='xadd-align:packet'))
     cases.append(Case(B.lddw(4, 2 ** 64 - 1) + B.ldind('b', 4, 1) + B.EXIT, mem=pk, fam='ldind-wrap'))
     cases.append(Case(B.lddw(4, 2 ** 64 - 8) + B.ldind('dw', 4, 0x7fffffff) + B.EXIT, mem=pk, fam='ldind-wrap'))
     # backward local calls, deep recursion, return chains
